@@ -20,6 +20,10 @@ BASE_LOGS = [
 ]
 
 
+# all seven types, several messages of each, two source ids
+RICH_LOG = [['m', K.ALL_TYPES[i % 7], i % 2, (80 + 4 * i) if K.ALL_TYPES[i % 7] in K.TIMED else None] for i in range(15)]
+
+
 def alphabet(spec, rng=None, size=10):
     """~10 operations tailored to the log: every kind of the property's list is present"""
     ms = [it for it in spec if it[0] == 'm']
@@ -52,6 +56,69 @@ def seek_family(spec, first):
                     for filt in (True, False):
                         for post in posts:
                             out.append([['r']] * k + ([F] if F else []) + [['r']] * k2 + [['s', i, filt]] + post)
+    return out
+
+
+def history_families(spec, first):
+    """histories the checklist names, for all small parameters (the caller appends reads to the end, then
+    clear_filters + rewind + a full read, which must be the unfiltered read of a fresh reader):
+      read to StopIteration; seek(i, filtered | unfiltered); reads
+      clear; remove-untimed; clear      (the original index must not be modified in place)
+      the same non-idempotent index slice two / three times in a row
+      time range A; clear or unfiltered seek; time range B      (must be B, not A and B)
+      filter; [reads]; seek_to_eof; clear; reads
+      read x k; filter F1; filter F2 (no read in between); [clear]
+      a filter that leaves nothing; clear / seek / eof / another filter"""
+    ms = [it for it in spec if it[0] == 'm']
+    n = len(ms)
+    al = alphabet(spec)
+    R = ['r']
+    filters = [al[2], al[3], al[4], al[5], al[6], ['u'], ['fi', None, -1, None], ['fi', 2, 12, None]]
+    ts = sorted({m[3] for m in ms if m[3] is not None}) or [80]
+    lo, mid, hi = ts[0], ts[len(ts) // 2], ts[-1]
+    ranges = [['fs', mid, None, None, 'ff'], ['fs', None, mid, None, 'tt'], ['fr', 0, max(8, mid - 8 * (lo // 8)), False, None],
+              ['fr', lo + 1, hi, True, None], ['fr', mid, None, None, None, 't', 'f']]
+    empties = [['ft', [K.ABSENT_TYPES[5]]], ['fs', hi + 800, None, None, 'ff'], ['fi', 3, 3, None], ['fi', n + 2, None, None]]
+    out = []
+    # read to the end, then seek
+    for F in [None] + filters[:6]:
+        for i in range(0, n + 1):
+            for filt in (True, False):
+                out.append(([F] if F else []) + [R] * (n + 1) + [['s', i, filt]] + [R] * 2)
+    # clear / remove-untimed / clear, with reads before
+    for k in (0, 1, 3, n):
+        out += [[R] * k + [['c'], ['u'], ['c']], [R] * k + [['u'], ['c'], ['u']], [R] * k + [['u'], al[2], ['c']], [R] * k + [al[3], ['u'], ['c']]]
+    # the same slice again
+    for sl in (['fi', 2, 12, None], ['fi', None, -1, None], ['fi', 1, None, None], ['fi', None, None, 2], ['fi', -3, None, None], ['fi', 1, -1, None]):
+        for k in (0, 1, 2, 4):
+            for k2 in (0, 1):
+                out.append([R] * k + [sl] + [R] * k2 + [sl])
+                out.append([R] * k + [sl] + [R] * k2 + [sl] + [sl])
+                out.append([R] * k + [sl] + [['c']] + [sl])
+    # range A, clear / unfiltered seek, range B
+    for A in ranges:
+        for B in ranges:
+            for k in (0, 2):
+                out.append([A] + [R] * k + [['c'], B])
+                out.append([A] + [R] * k + [['s', 0, False], B])
+                out.append([A] + [R] * k + [['s', min(2, max(0, n - 1)), False], B])
+    # seek_to_eof then clear
+    for F in filters:
+        for k in (0, 1, 3):
+            out.append([F] + [R] * k + [['e'], ['c']])
+            out.append([R] * k + [F, ['e'], ['c'], F])
+    # two filter changes without a read in between
+    for k in range(0, n + 1, 1 if first else 2):
+        for F1 in filters:
+            for F2 in filters + [['c']]:
+                out.append([R] * k + [F1, F2])
+                if first:
+                    out.append([R] * k + [F1, F2, ['c']])
+    # a filter that leaves nothing
+    for Z in empties:
+        for k in (0, 1, 3, n + 1):
+            out += [[R] * k + [Z, ['c']], [R] * k + [Z, R, ['c']], [R] * k + [Z, ['s', 0, True], ['c']], [R] * k + [Z, ['s', 1, False]],
+                    [R] * k + [Z, ['e'], ['c']], [R] * k + [Z, ['u'], ['c']], [R] * k + [Z, al[2], ['c']], [R] * k + [Z, ['w'], ['c']]]
     return out
 
 
@@ -269,11 +336,19 @@ def describe(c, rec):
 
 
 def drain(spec):
-    return [['r']] * (len([it for it in spec if it[0] == 'm']) + 1)
+    """reads to the end of the iteration, then clear_filters + rewind + a full read: after ANY history this must be the
+    unfiltered read of a fresh reader (the original index is never modified)"""
+    n = len([it for it in spec if it[0] == 'm'])
+    return [['r']] * (n + 1) + [['c'], ['w']] + [['r']] * (n + 1)
 
 
 def run(ctx):
-    consts = gen_c10.generate()
+    try:
+        consts = gen_c10.generate()
+    except Exception as e:
+        ctx.obligation('translators/gen_c10.py evaluates the reader / indexer constants', False, 'translator', repr(e)[:400])
+        ctx.broken_proof('translator gen_c10 failed: %r' % (e,))
+        consts = {'header_size': K.HEADER_SIZE, 'populate_count': K.POPULATE_COUNT}
     K.set_consts(consts)
     ctx.notes.append('generated constants: %r' % consts)
     if not ctx.coq():
@@ -296,7 +371,7 @@ def run(ctx):
         for n in range(0, L + 1):
             # the longest length is kept in full for the first log and thinned to a third for the others
             for t in itertools.product(range(len(al)), repeat=n):
-                if n == L and spec is not BASE_LOGS[0] and (sum(t) % 3) != 0:
+                if n == L and (sum(t) % (2 if spec is BASE_LOGS[0] else 6)) != 0:
                     continue
                 ops = [al[i] for i in t]
                 cases.append({'log': spec, 'flags': FLAGS, 'max_bytes': None, 'srcs': None, 'ops': ops + drain(spec), 'origin': 'exhaustive', 'nops': n})
@@ -304,6 +379,9 @@ def run(ctx):
     for spec in BASE_LOGS:
         for ops in seek_family(spec, spec is BASE_LOGS[0]):
             cases.append({'log': spec, 'flags': FLAGS, 'max_bytes': None, 'srcs': None, 'ops': ops + drain(spec), 'origin': 'seek-family', 'nops': len(ops)})
+    for spec in BASE_LOGS + [RICH_LOG]:
+        for ops in history_families(spec, spec is BASE_LOGS[0]):
+            cases.append({'log': spec, 'flags': FLAGS, 'max_bytes': None, 'srcs': None, 'ops': ops + drain(spec), 'origin': 'history-family', 'nops': len(ops)})
     # random scripts of up to 30 operations on random logs (some with a source filter / byte limit)
     for i in range(1500 if ctx.thorough else 400):
         u = rng.random()
@@ -352,9 +430,9 @@ def run(ctx):
     for c in [c for c in cases if c['origin'] == 'random'][:3]:
         ctx.sample({'messages': [[m['off'], m['size'], m['type'], m['src'], m['t8']] for m in recs[c['id']]['log']['msgs']][:10], 'ops': c['ops'][:c['nops']],
                     'results': [s['res'][0] if s['res'][0] != 'MSG' else res_offset(s['res']) for s in recs[c['id']]['impl']['run'].get('steps', [])]})
-    ctx.coverage['rule'] = ('operation scripts on a fresh reader, each followed by reads to the end of iteration, each run twice on two fresh readers: '
+    ctx.coverage['rule'] = ('operation scripts on a fresh reader, each followed by reads to the end of iteration and then clear_filters + rewind + a full read (which must be the unfiltered log), each run twice on two fresh readers; history families: read-to-end then seek, clear/remove-untimed/clear, the same slice repeated, range A - clear/unfiltered seek - range B, seek_to_eof then clear, two filter changes without a read, an empty filtered index then clear/seek/eof; '
                             'every sequence of <= %d operations over a 12-operation alphabet {read, 2 type filters, time slice, TimeRange, index slice, remove-untimed, '
-                            'clear, rewind, seek filtered, seek unfiltered, seek_to_eof} on 3 logs (length-%d sequences thinned to a third on two of the logs), the family '
+                            'clear, rewind, seek filtered, seek unfiltered, seek_to_eof} on 3 logs (length-%d sequences thinned to a half on one log and a sixth on the other two), the family '
                             '"read x k; one of 7 filters; [read]; seek(i, filtered|unfiltered) for every i incl. the current position; clear / refilter; reads" for all k, i on the 3 logs, plus random scripts of <= 30 '
                             'operations (random keys incl. hints, negative / out-of-range slice bounds, zero step, invalid seeks) on random logs, some with a source filter or byte limit. '
                             'Compared after every operation: result against the SPEC cursor and the MODEL; the returned messages are inspected again after the whole script (retained results, object identity); next_index_elem and len(index) against the MODEL (advisory). '
